@@ -446,7 +446,8 @@ impl Cw1Scen {
     // ----- transactions
 
     fn run_exec(&mut self, sender: &Addr, kind: &str, a: &Args) -> Option<Result<Response, String>> {
-        let info = MessageInfo { sender: sender.clone(), funds: vec![] };
+        // coins attached to the call (`funds=1ua+2ub`): the proxies neither want nor use them
+        let info = MessageInfo { sender: sender.clone(), funds: a.opt("funds").map(|f| parse_coins(&f)).unwrap_or_default() };
         let env = self.env.clone();
         let exp = a.opt("expires").and_then(|e| parse_exp(&e));
         let coin = Coin { denom: a.str("denom"), amount: Uint128::new(a.u128("amt")) };
@@ -681,6 +682,12 @@ impl Cw1Scen {
         if rng.chance(1, 40) {
             return self.env.contract.address.clone();
         }
+        // a near miss of an admin's address as caller: the address without its last character, or with one more
+        // (`info.sender` is whatever the chain says; a comparison that only looks at a common prefix would accept it)
+        if rng.chance(1, 30) && !admins.is_empty() {
+            let a = rng.pick(&admins).clone();
+            return near_miss(rng, a.as_str());
+        }
         let r = rng.below(100);
         if r < admin_pct && !admins.is_empty() {
             Addr::unchecked(rng.pick(&admins).clone())
@@ -849,7 +856,8 @@ impl Scenario for Cw1Scen {
                 let n = *rng.pick(&[0usize, 1, 1, 2, 3]);
                 let mut msgs: Vec<String> = (0..n).map(|_| self.gen_msg(rng, &snd, false)).collect();
                 dup_one(rng, &mut msgs);
-                format!("exec {snd} execute msgs={}", msgs.join(";"))
+                let funds = if rng.chance(1, 8) { format!(" funds={}", self.gen_small_coin(rng)) } else { String::new() };
+                format!("exec {snd} execute msgs={}{funds}", msgs.join(";"))
             } else if r < 50 {
                 format!("exec {} freeze", self.pick_sender(rng, 60, 0))
             } else if r < 65 {
@@ -913,7 +921,8 @@ impl Scenario for Cw1Scen {
             let n = *rng.pick(&[0usize, 1, 1, 1, 2, 2, 3]);
             let mut msgs: Vec<String> = (0..n).map(|_| self.gen_msg(rng, &snd, true)).collect();
             dup_one(rng, &mut msgs);
-            format!("exec {snd} execute msgs={}", msgs.join(";"))
+            let funds = if rng.chance(1, 8) { format!(" funds={}", self.gen_small_coin(rng)) } else { String::new() };
+            format!("exec {snd} execute msgs={}{funds}", msgs.join(";"))
         } else if r < 83 {
             let (s, who) = self.gen_probe_sender(rng);
             format!("probe {} msg={}", s, self.gen_msg(rng, &who, true))
